@@ -591,6 +591,9 @@ int main (int argc, char **argv)
 				for (s = 1; s <= smax; s++) add_pt (3, 0, k, r, N1, s, k + 2, 0);
 				if (thorough) { add_pt (3, 0, k, r, N1, 16807, k + 2, 0); add_pt (3, 0, k, r, N1, 2147483646, k + 2, 0); }
 			}
+			/* low code rates with many rows: extra entries by the hundred (every r in a range, so that counts such as 256 are hit) */
+			for (k = 3; k <= 8; k++) for (N1 = 4; N1 <= 6; N1 += 2) for (r = (thorough ? 100 : 120); r <= (thorough ? 600 : 290); r++) add_pt (3, 0, k, r, N1, 1, k + 2, 0);
+			add_pt (3, 0, 56, 200, 4, 1, 58, 0); add_pt (3, 0, 100, 300, 6, 1, 102, 0); add_pt (3, 0, 100, 328, 4, 1, 102, 0); add_pt (3, 0, 128, 384, 4, 2, 130, 0); add_pt (3, 0, 200, 800, 6, 1, 202, 0);
 			/* higher code rates: the claim is 'often' true there */
 			for (k = 30; k <= (thorough ? 400 : 120); k += (thorough ? 37 : 45)) for (r = 4; r <= 40; r += 9) for (N1 = 3; N1 <= 6 && N1 <= r; N1++) for (s = 1; s <= 3; s++) add_pt (3, 0, k, r, N1, s, k + 2, 0);
 		} else {
